@@ -223,17 +223,29 @@ fn command_go(
                 let search_is_running = search_is_running.clone();
                 move || {
                     thread::sleep(time);
+                    #[cfg(daniel729_chess_verif)]
+                    crate::verif_hooks::sched("TIMER_WAKE");
                     search_is_running.store(false, Relaxed);
+                    #[cfg(daniel729_chess_verif)]
+                    crate::verif_hooks::event("TIMER_FIRED");
                 }
             });
+            #[cfg(daniel729_chess_verif)]
+            crate::verif_hooks::sched("AFTER_TIMER_SPAWN");
         }
     }
 
     let thread = thread::spawn({
+        #[cfg(daniel729_chess_verif)]
+        crate::verif_hooks::sched("BEFORE_RAISE");
         search_is_running.store(true, Relaxed);
+        #[cfg(daniel729_chess_verif)]
+        crate::verif_hooks::event("FLAG_RAISED");
         let data_mutex = data_mutex.clone();
         let search_is_running = search_is_running.clone();
         move || {
+            #[cfg(daniel729_chess_verif)]
+            crate::verif_hooks::sched("SEARCH_START");
             let mut data = data_mutex.lock().unwrap();
             let (current_game, cache) = data.mut_refs();
             let best_move = get_best_move_until_stop(
@@ -248,8 +260,12 @@ fn command_go(
             } else {
                 println!("bestmove none");
             }
+            #[cfg(daniel729_chess_verif)]
+            crate::verif_hooks::sched("AFTER_BESTMOVE");
 
             search_is_running.store(false, Relaxed);
+            #[cfg(daniel729_chess_verif)]
+            crate::verif_hooks::event("FLAG_CLEARED");
             *current_game = None;
         }
     });
